@@ -103,6 +103,23 @@ func H_C12_reentry() {
 // every exported Broker method, on its successful and on each of its early-return paths, leaves no lock behind (neither the
 // broker's nor a graph's threshold lock): afterwards a Send, a getter and a setter of the same type all return
 func H_C12_every_call_releases() {
+	b, ctx := everyCallBroker()
+	op := symLen(0, 27)
+	verifNoteInt("op", op)
+	everyCall(b, ctx, op)
+	verifAssert(verifNoLocksHeld(), "C12.every-call.lock-released-after-call")
+	// all of these would hang behind a lock left behind
+	b.SetSuccessThreshold("t", 0)
+	b.SetSuccessThresholdSinks("t", 0)
+	b.SuccessThreshold("t")
+	b.SuccessThresholdSinks("t")
+	b.Send(ctx, "t", "payload")
+	b.RegisterNode("after", &rNode{typ: NodeTypeSink})
+	verifReach("C12.every-call.end")
+}
+
+// everyCallBroker: the registry the every-call harnesses start from
+func everyCallBroker() (*Broker, *vCtx) {
 	b, _ := NewBroker()
 	ctx := &vCtx{}
 	f, s := &rNode{typ: NodeTypeFormatter}, &rNode{typ: NodeTypeSink}
@@ -112,8 +129,11 @@ func H_C12_every_call_releases() {
 	b.RegisterPipeline(Pipeline{PipelineID: "p", EventType: "t", NodeIDs: []NodeID{"f", "s"}})
 	b.RegisterPipeline(Pipeline{PipelineID: "deny", EventType: "t", NodeIDs: []NodeID{"f", "s"}}, WithPipelineRegistrationPolicy(DenyOverwrite))
 	b.RegisterNode("denied", &rNode{typ: NodeTypeSink}, WithNodeRegistrationPolicy(DenyOverwrite))
-	op := symLen(0, 27)
-	verifNoteInt("op", op)
+	return b, ctx
+}
+
+// everyCall: call number op of the catalogue (every exported Broker method on its success and early-return paths)
+func everyCall(b *Broker, ctx *vCtx, op int) {
 	switch op {
 	case 0:
 		b.Send(ctx, "t", "payload")
@@ -172,13 +192,26 @@ func H_C12_every_call_releases() {
 	case 27:
 		b.IsAnyPipelineRegistered(EventType(verifIteStr(nondetBool(), "t", "unknown")))
 	}
-	verifAssert(verifNoLocksHeld(), "C12.every-call.lock-released-after-call")
-	// all of these would hang behind a lock left behind
+}
+
+// the same catalogue racing with a writer that queues on the broker lock: a call that takes the read lock twice (directly or
+// through another exported method) deadlocks behind the queued writer
+func H_C12_every_call_vs_writer() {
+	b, ctx := everyCallBroker()
+	op := symLen(0, 27)
+	verifNoteInt("op", op)
+	k := symLen(0, 1)
+	verifInterleave(true)
+	verifGo(func() { everyCall(b, ctx, op) })
+	verifGo(func() {
+		if k == 0 {
+			b.SetSuccessThreshold("w", 1)
+		} else {
+			b.RegisterNode("w", &rNode{typ: NodeTypeSink})
+		}
+	})
+	verifJoin()
+	verifInterleave(false)
 	b.SetSuccessThreshold("t", 0)
-	b.SetSuccessThresholdSinks("t", 0)
-	b.SuccessThreshold("t")
-	b.SuccessThresholdSinks("t")
-	b.Send(ctx, "t", "payload")
-	b.RegisterNode("after", &rNode{typ: NodeTypeSink})
-	verifReach("C12.every-call.end")
+	verifReach("C12.every-call-vs-writer.end")
 }
